@@ -243,16 +243,17 @@ class SameCapSameNode(Spec):
     file = "allmydata/nodemaker.py"
     qualname = "NodeMaker.create_from_cap"
     level = "B"
-    bound = "the 8 mutable capability kinds (SDMF/MDMF file and directory, read-write and read-only), given as write cap or as read cap"
+    bound = "the 8 mutable capability kinds (SDMF/MDMF file and directory, read-write and read-only), given as write cap or as read cap, MDMF caps also with the legacy hint suffix"
     cross_check = 0
     raises = ()
-    canary_case = {"kind": "WriteableMDMFFileURI", "slot": "w"}
+    canary_case = {"kind": "WriteableMDMFFileURI", "slot": "w", "spelling": "legacy-hints"}
 
     def inputs(self):
-        return {"kind": ChoiceK(list(MUTABLE_CAPS)), "slot": ChoiceK(["w", "r"])}
+        return {"kind": ChoiceK(list(MUTABLE_CAPS)), "slot": ChoiceK(["w", "r"]), "spelling": ChoiceK(["canonical", "legacy-hints"])}
 
     def all_cases(self):
-        return [{"kind": k, "slot": s} for k in MUTABLE_CAPS for s in ("w", "r")]
+        # MDMF caps may carry the legacy ":k:segsize" hint suffix: such a string parses but is not what to_string() prints
+        return [{"kind": k, "slot": s, "spelling": sp} for k in MUTABLE_CAPS for s in ("w", "r") for sp in (("canonical", "legacy-hints") if "MDMF" in k else ("canonical",))]
 
     def config(self):
         me = self
@@ -271,6 +272,8 @@ class SameCapSameNode(Spec):
     def run(self, I, a):
         self._built = []
         cap = cap_string(a["kind"])
+        if a["spelling"] == "legacy-hints":
+            cap = cap + b":3:131073"
         nm = SObj(self.module().NodeMaker, {"_node_cache": {}, "blacklist": None})
         args = [cap, None] if a["slot"] == "w" else [None, cap]
         n1 = I.call_value(self.target(I), [nm] + args, {})
